@@ -53,18 +53,28 @@ pub struct World {
     /// generated-but-undelivered dispatch jobs are flushed in order unless false
     pub model: Value,
     pub recv: Vec<Value>,
+    /// the engine stopped making progress (work in flight that never finishes)
+    pub stuck: bool,
+    /// currently re-executing an already recorded prefix
+    pub prefix: bool,
 }
 
-pub async fn settle() {
+/// wait until nothing is in flight; false if the engine does not get there within a few seconds
+/// (a dead scheduler loop, say) - the caller records that instead of hanging
+pub async fn settle() -> bool {
     let mut spins = 0u32;
+    let start = std::time::Instant::now();
     loop {
         if verif::inflight() <= 0 {
-            break;
+            return true;
         }
         tokio::task::yield_now().await;
         spins += 1;
         if spins % 64 == 0 {
             tokio::time::sleep(std::time::Duration::from_micros(50)).await;
+            if start.elapsed() > std::time::Duration::from_secs(8) {
+                return false;
+            }
         }
     }
 }
@@ -101,7 +111,10 @@ impl World {
         let engine = builder.build().await.expect("engine build").start();
         let _ = std::fs::remove_file(&path);
         // the interval task fires its first tick at once; let it pass unrecorded
-        tokio::task::yield_now().await;
+        let start = std::time::Instant::now();
+        while verif::ticks() < 1 && start.elapsed() < std::time::Duration::from_secs(5) {
+            tokio::task::yield_now().await;
+        }
         settle().await;
         verif::clock_set(1_000_000);
         verif::log_enable(true);
@@ -140,6 +153,8 @@ impl World {
             steps: 0,
             model: model.clone(),
             recv: Vec::new(),
+            stuck: false,
+            prefix: false,
         }
     }
 
@@ -283,15 +298,22 @@ impl World {
 
     /// close a step: settle, deliver, record
     pub async fn record(&mut self, mut step: Value) {
-        settle().await;
+        let mut settled = settle().await;
         if self.cfg.auto_deliver {
             self.flush_dispatch();
-            settle().await;
+            settled = settle().await && settled;
+        }
+        if !settled {
+            self.stuck = true;
+            step["stuck"] = json!(verif::inflight());
         }
         let (ws, gens, mks, others) = self.absorb();
         self.steps += 1;
         step["ev"] = json!("step");
         step["n"] = json!(self.steps);
+        // a step that only re-executes an already recorded prefix (explore): its state has been
+        // judged before, OBSERVE loads it without evaluating the formulas again
+        step["pre"] = json!(self.prefix);
         step["ws"] = json!(ws);
         step["gens"] = json!(gens);
         step["mks"] = json!(mks);
